@@ -79,6 +79,10 @@ def build(rng, i, transport="u"):
         r.te_value = rng.choice(["chunked", "chunked", "Chunked", "CHUNKED"])
     if fr == "chunked" and rng.chance(1, 4):
         r.headers.append(("Content-Length", str(rng.choice([0, 3, size + 5]))))   # TE wins over any Content-Length
+    if fr == "none" and rng.chance(1, 3):
+        # names that merely LOOK like framing headers do not frame anything
+        r.headers.append(rng.choice([("Content_Length", "5"), ("content_length", "3"), ("Transfer_Encoding", "chunked"), ("Content-Lengths", "4"),
+                                     ("X-Content-Length", "9"), ("Content.Length", "2")]))
     if rng.chance(1, 8):
         # media types do not frame a request: without Content-Length / Transfer-Encoding there is no body, whatever the type
         r.headers.append(("Content-Type", rng.choice(["multipart/byteranges; boundary=X", "Multipart/ByteRanges", "multipart/form-data; boundary=b",
